@@ -249,6 +249,28 @@ def check_type_probes():
         if m.type not in TYPES or text.endswith('type=note_off'):
             out.append(('accepts-invalid/from_str/type', {'typeprobe': ['from_str', text]},
                         'from_str(%r) returned %s' % (text, core.srepr(m))))
+    # one-shot iterables as sysex data: what is *stored* must have been validated
+    for name, bad, mk in (('generator', True, lambda: (x for x in [1, 128])),
+                          ('iterator', True, lambda: iter([1, 2, -1])),
+                          ('map', True, lambda: map(float, [1, 2])),
+                          ('generator', False, lambda: (x for x in [1, 127])),
+                          ('iterator', False, lambda: iter([0, 5]))):
+        for how, f in (('constructor', lambda: mido.Message('sysex', data=mk())),
+                       ('from_dict', lambda: mido.Message.from_dict({'type': 'sysex', 'data': mk()})),
+                       ('copy', lambda: mido.Message('sysex').copy(data=mk()))):
+            try:
+                m = f()
+            except Exception as e:
+                if not bad:
+                    out.append(('rejects-valid/%s/data-%s' % (how, name), {'typeprobe': [how, name]},
+                                '%s with valid data from a one-shot %s raised %r' % (how, name, e)))
+                continue
+            ok = (type(m.data).__name__ == 'SysexData' and
+                  all(type(b) is int and 0 <= b <= 127 for b in m.data))
+            if bad or not ok or list(m.data) != list(mk()):
+                out.append(('accepts-invalid/%s/data-%s' % (how, name), {'typeprobe': [how, name]},
+                            '%s with data from a one-shot %s (%r) returned %s' % (
+                                how, name, list(mk()), core.srepr(m))))
     m = mido.Message('note_on')
     for bt in (0x90, 'note_off', None):
         try:
